@@ -202,7 +202,16 @@ def coerce_func_hint_root(
         # thus taken the surprisingly sensible course of silently ignoring this
         # edge case by effectively performing the same type expansion as
         # performed here. *applause*
-        return Union[hint, NotImplementedType]  # type: ignore[return-value]  # pyright: ignore
+        #
+        # Note that this hint is intentionally coerced *BEFORE* being expanded
+        # (e.g., from a PEP-noncompliant tuple union into a PEP-compliant union)
+        # and that this expansion is intentionally deferred to a factory
+        # raising human-readable exceptions. Directly subscripting the
+        # "typing.Union" factory by an uncoerced hint raises non-human-readable
+        # "TypeError" exceptions for hints that factory rejects (e.g., tuple
+        # unions, hints subscripted by unhashable objects).
+        hint = coerce_hint_root(hint=hint, exception_prefix=exception_prefix)
+        return make_hint_pep484_union((hint, NotImplementedType))
 
     # ..................{ COERCE                             }..................
     # Defer to the function-agnostic root hint coercer as a generic fallback.
